@@ -40,6 +40,9 @@ def run_check(prop, repo, tier="quick", extra_env=None):
                        capture_output=True, text=True, env=env, timeout=3600, cwd=VERIF)
     vio = [l for l in p.stdout.splitlines() if l.startswith("VIOLATION property=" + prop)]
     detail = [l for l in p.stdout.splitlines() if l.startswith("  oracle=")]
+    margin = [l.strip() for l in p.stdout.splitlines() if l.startswith("  violating hits in this run:")]
+    if margin and detail:
+        detail[0] = detail[0] + "  [" + margin[0].replace("violating hits in this run: ", "hits ") + "]"
     return p.returncode, vio, detail, p.stdout[-600:] + p.stderr[-600:]
 
 
@@ -105,7 +108,7 @@ def main():
             if status != "DETECTED":
                 missed.append(m["id"])
             extra = " ".join(f"{p}:{'hit' if r == 1 else 'rc' + str(r)}" for p, r, n, d in res[1:])
-            print(f"{m['id']:28s} {prop}  {status:14s}{tests} {extra} {(det[0].strip()[:150] if det else tail[-150:].strip() if status != 'DETECTED' else '')}")
+            print(f"{m['id']:28s} {prop}  {status:14s}{tests} {extra} {(det[0].strip()[:230] if det else tail[-150:].strip() if status != 'DETECTED' else '')}")
             sys.stdout.flush()
         finally:
             shutil.rmtree(repo, ignore_errors=True)
